@@ -152,6 +152,7 @@ func runCheck(def *propDef, tier, overlayPath string, writeEv bool) (code int) {
 		}
 	}()
 	def.run(c)
+	crossRegistered(c)
 	// every rule enumerates all of its instances in the current source (and all checked-in outputs): a finite space,
 	// covered completely unless something was undecided
 	c.Exhaustive = countUndecided(c.Finds) == 0
@@ -346,6 +347,7 @@ func cmdExplain(args []string) int {
 	}
 	c.L = L
 	def.run(c)
+	crossRegistered(c)
 	for _, g := range c.Finds {
 		if g.Rule == f.Rule && g.Construct == f.Construct {
 			fmt.Printf("STILL REPORTED on the current tree at %s: %s\n", g.Pos, g.Msg)
